@@ -37,6 +37,8 @@ pub enum Lie {
     WrongNumber,
     /// answers with a block t whose certificate does not verify
     BadCertificate,
+    /// answers with the genuine certificate of block t attached to a foreign payload
+    SwappedPayload,
     /// never answers (the requester's get_block timeout has to fire)
     Stall,
     /// never answers, and the peer's process goes away as soon as it got the request
@@ -128,6 +130,16 @@ impl EngineInterface for NetStore {
             }
             Lie::WrongNumber => Ok(self.0.blocks.lock().unwrap().get(&(n.0 + 1)).cloned().ok_or_else(|| anyhow::format_err!("not found"))?),
             Lie::BadCertificate => Ok(self.0.bad_block.clone().unwrap()),
+            Lie::SwappedPayload => {
+                let b = honest()?;
+                match b {
+                    validator::Block::FinalV2(mut f) => {
+                        f.payload = Payload(vec![0x5A, 0x5A, n.0 as u8]);
+                        Ok(validator::Block::FinalV2(f))
+                    }
+                    b => Ok(b),
+                }
+            }
             Lie::Stall | Lie::StallThenDisconnect => {
                 ctx.canceled().await;
                 Err(ctx::Canceled.into())
@@ -224,6 +236,7 @@ pub fn fetch_scenarios() -> Vec<FetchScenario> {
         bad("storage_error_then_other_peer", Lie::Error),
         bad("wrong_block_number_then_other_peer", Lie::WrongNumber),
         bad("bad_certificate_then_other_peer", Lie::BadCertificate),
+        bad("certificate_with_foreign_payload_then_other_peer", Lie::SwappedPayload),
         bad("no_answer_timeout_then_other_peer", Lie::Stall),
         bad("peer_vanishes_mid_call_then_other_peer", Lie::StallThenDisconnect),
         FetchScenario { name: "flaky_peer_reconnects", target: 2, first: vec![PeerSpec { lo: 0, hi: 4, lie: Lie::FlakyOnce }], wait_read: None, second: vec![] },
@@ -410,6 +423,7 @@ async fn one_fetch(seed: u64, chn: &c08::Chain, canon: &[validator::Block], sc: 
                         Lie::Error | Lie::FlakyOnce => "failed with a storage error",
                         Lie::WrongNumber => "answered with another block",
                         Lie::BadCertificate => "answered with an uncertified block",
+                        Lie::SwappedPayload => "answered with a foreign payload under the block's certificate",
                         Lie::Stall => "never answered",
                         Lie::StallThenDisconnect => "vanished mid-call",
                         Lie::Honest => "(all peers honest)",
